@@ -68,7 +68,8 @@ func GenExpr(t *rapid.T, st ExprStyle, label string) Expr {
 	return e
 }
 
-var fillSegs = []string{"a", "b", "ab", "abc", "a:b", "a*", ":a", "*a", "b:", "x", "zz", "abcd", ":", "*", "**", ":*"}
+// (the last one: an encoded percent sign in front of two hex digits - the text "a%41", not "aA")
+var fillSegs = []string{"a", "b", "ab", "abc", "a:b", "a*", ":a", "*a", "b:", "x", "zz", "abcd", ":", "*", "**", ":*", "a%2541"}
 
 // Instantiate produces a raw request path matched by e.
 func Instantiate(t *rapid.T, e Expr, label string) string {
